@@ -1759,6 +1759,11 @@ class Grouped(Family):
             Doc('gr-dup-first', _decl() + '<r><l1><v>a</v><v>a</v></l1><mid>1</mid><l1><v>b</v></l1></r>', 'fault:dup-unique'),
             Doc('gr-dup-second', _decl() + '<r><l1><v>a</v></l1><mid>1</mid><l1><v>b</v><v>b</v></l1></r>', 'fault:dup-unique'),
             Doc('gr-bad-mid', _decl() + '<r><l1><v>a</v></l1><mid>x</mid><l1><v>b</v></l1></r>', 'fault:lexical'),
+            # the only fault is character data AFTER a child of the root (the tail of a streamed chunk), in element-only content
+            Doc('gr-stray-tail', _decl() + '<r><l1><v>a</v></l1>stray<mid>1</mid><l1><v>b</v></l1></r>', 'fault:structure'),
+            Doc('gr-stray-last-tail', _decl() + '<r><l1><v>a</v></l1><mid>1</mid><l1><v>b</v></l1> stray </r>', 'fault:structure'),
+            Doc('gr-stray-head', _decl() + '<r>stray<l1><v>a</v></l1><mid>1</mid><l1><v>b</v></l1></r>', 'fault:structure'),
+            Doc('gr-stray-deep-tail', _decl() + '<r><l1><v>a</v>stray<v>b</v></l1><mid>1</mid><l1><v>c</v></l1></r>', 'fault:structure'),
         ]
 
 
